@@ -174,6 +174,7 @@ def c17_jobs(prop, tier):
             b = (cfg, 'std'); o = (cfg, feat)
             common = {'cfg': cfg, 'feat': 'std', 'base': list(b), 'other': list(o), 'needs': [list(b), list(o)], 'props': [prop]}
             jobs.append(dict(common, kind='c17_id', name='mir_identity_std_vs_' + feat, op='mir_identity_std_vs_' + feat, N=0))
+            jobs.append(dict(common, kind='c17_display', name='diff_display_id', op='diff_display_id', N=0))
             nm = 3 if tier == 'quick' else 4
             for N in range(0, nm + 1):
                 for op in MUTATORS:
